@@ -244,6 +244,11 @@ impl FrameQueue {
         self.frame_log.len()
     }
 
+    #[cfg(feature = "verif")]
+    pub fn verif_log_base(&self) -> u32 {
+        self.frame_log.base_id()
+    }
+
     pub fn mark_rate_limited(&mut self) {
         self.rate_limited = true;
     }
